@@ -64,8 +64,12 @@ type c16Spec struct {
 
 type c16Issue struct {
 	Specs []*c16Spec
-	done  chan struct{}
-	once  sync.Once
+	// Toggle is executed in the same handler after the requests were issued (so
+	// possibly while blocking requests are outstanding): "" | disable |
+	// enable-allowall | enable-stash. In-flight requests keep their admitted mode.
+	Toggle string
+	done   chan struct{}
+	once   sync.Once
 }
 
 func (c *c16Issue) finish() { c.once.Do(func() { close(c.done) }) }
@@ -240,6 +244,9 @@ type c16Core struct {
 	outstanding atomic.Int64
 	blocking    atomic.Int64
 	deferred    atomic.Int64 // blocking requests completed since the last handled message
+	mode        atomic.Value // current default request mode (string): off | allowall | stash
+	toggles     atomic.Int64 // runtime Disable/EnableReentrancy calls made
+	togglesBlk  atomic.Int64 // ... of which while a blocking request was outstanding
 	// plain state: only touched from handlers and continuations; the race detector
 	// reports a continuation that runs off the requester's turn
 	plain int
@@ -261,13 +268,55 @@ func (a *c16Core) onMessage(kind string, detail string) {
 
 type c16Requests interface {
 	issue(spec *c16Spec, msg *c16Ask, opts []RequestOption) (RequestCall, error)
+	toggle(enable bool, cfg *reentrancy.Reentrancy) error
+}
+
+func (a *c16Core) defaultMode() string {
+	m, _ := a.mode.Load().(string)
+	return m
+}
+
+// applyToggle retunes the default request policy from inside the handler.
+func (a *c16Core) applyToggle(what string, rq c16Requests) {
+	if what == "" {
+		return
+	}
+	var err error
+	newMode := "off"
+	switch what {
+	case "disable":
+		err = rq.toggle(false, nil)
+	case "enable-allowall":
+		newMode = "allowall"
+		err = rq.toggle(true, reentrancy.New(reentrancy.WithMode(reentrancy.AllowAll), reentrancy.WithMaxInFlight(a.led.maxInFlight)))
+	case "enable-stash":
+		newMode = "stash"
+		err = rq.toggle(true, reentrancy.New(reentrancy.WithMode(reentrancy.StashNonReentrant), reentrancy.WithMaxInFlight(a.led.maxInFlight)))
+	}
+	if err != nil {
+		a.led.violation("harness:toggle-failed", map[string]any{"toggle": what, "err": err.Error()})
+		return
+	}
+	a.mode.Store(newMode)
+	a.toggles.Add(1)
+	if a.blocking.Load() > 0 {
+		a.togglesBlk.Add(1)
+	}
 }
 
 func (a *c16Core) handleIssue(cmd *c16Issue, rq c16Requests) {
 	defer cmd.finish()
+	defer a.applyToggle(cmd.Toggle, rq)
 	led := a.led
 	for _, sp := range cmd.Specs {
 		rec := sp.rec
+		// effective mode of this request: the per-call override, else the default
+		// policy in force right now (it can be retuned at runtime)
+		eff := sp.Mode
+		if eff == "" {
+			eff = a.defaultMode()
+		}
+		rec.blocking.Store(eff == "stash")
 		var opts []RequestOption
 		if sp.Timeout > 0 {
 			opts = append(opts, WithRequestTimeout(sp.Timeout))
@@ -405,6 +454,14 @@ func (i c16ActorIssuer) issue(sp *c16Spec, msg *c16Ask, opts []RequestOption) (R
 	return call, err
 }
 
+func (i c16ActorIssuer) toggle(enable bool, cfg *reentrancy.Reentrancy) error {
+	if !enable {
+		i.ctx.DisableReentrancy()
+		return nil
+	}
+	return i.ctx.EnableReentrancy(cfg)
+}
+
 func (a *c16Requester) Receive(ctx *ReceiveContext) {
 	switch m := ctx.Message().(type) {
 	case *c16Ord:
@@ -457,6 +514,14 @@ func (i c16GrainIssuer) issue(sp *c16Spec, msg *c16Ask, opts []RequestOption) (R
 	return call, nil
 }
 
+func (i c16GrainIssuer) toggle(enable bool, cfg *reentrancy.Reentrancy) error {
+	if !enable {
+		i.ctx.DisableReentrancy()
+		return nil
+	}
+	return i.ctx.EnableReentrancy(cfg)
+}
+
 func (g *c16GrainRequester) OnReceive(ctx *GrainContext) {
 	switch m := ctx.Message().(type) {
 	case *c16Ord:
@@ -489,14 +554,21 @@ func (k c16Knobs) String() string {
 func c16GenKnobs(rng *rand.Rand) c16Knobs {
 	k := c16Knobs{
 		Requester:   []string{"actor", "actor", "actor", "grain"}[rng.Intn(4)],
-		Mode:        []string{"allowall", "stash"}[rng.Intn(2)],
+		Mode:        []string{"allowall", "stash", "allowall", "stash", "off"}[rng.Intn(5)],
 		MaxInFlight: []int{0, 1, 4, 4}[rng.Intn(4)],
 		Rounds:      6 + rng.Intn(6),
-		Disturb:     []string{"none", "none", "none", "none", "restart", "restart", "shutdown"}[rng.Intn(7)],
+		Disturb:     []string{"none", "none", "none", "toggle", "toggle", "restart", "restart", "shutdown"}[rng.Intn(8)],
 		Noise:       rng.Intn(4),
 	}
 	if k.Requester == "grain" {
-		k.Disturb = "none"
+		// a grain configured Off has no request state at all (requests are rejected even
+		// with a per-call override); its policy can still be retuned at runtime
+		if k.Disturb != "toggle" {
+			k.Disturb = "none"
+		}
+		if k.Mode == "off" {
+			k.Mode = "allowall"
+		}
 	}
 	if k.Disturb == "restart" && k.Noise == 0 {
 		k.Noise = 1 + rng.Intn(3)
@@ -558,8 +630,12 @@ func c16RunCase(t *testing.T, k c16Knobs, seed int64) c16Obs {
 	}
 
 	mode := reentrancy.AllowAll
-	if k.Mode == "stash" {
+	switch k.Mode {
+	case "stash":
 		mode = reentrancy.StashNonReentrant
+	case "off":
+		// default policy Off: requests are admitted only with a per-call override
+		mode = reentrancy.Off
 	}
 	rcfg := reentrancy.New(reentrancy.WithMode(mode), reentrancy.WithMaxInFlight(k.MaxInFlight))
 
@@ -570,6 +646,7 @@ func c16RunCase(t *testing.T, k c16Knobs, seed int64) c16Obs {
 	if k.Requester == "actor" {
 		ra := &c16Requester{targets: targets, names: names, grains: grains}
 		ra.core.led = led
+		ra.core.mode.Store(k.Mode)
 		core = &ra.core
 		pid, err := sys.Spawn(ctx, "requester", ra, WithLongLived(), WithReentrancy(rcfg))
 		if err != nil {
@@ -579,6 +656,7 @@ func c16RunCase(t *testing.T, k c16Knobs, seed int64) c16Obs {
 		core.sch.Store(any(pid))
 	} else {
 		core = &c16Core{led: led}
+		core.mode.Store(k.Mode)
 		gr := &c16GrainRequester{core: core, names: names, grains: grains}
 		id, err := sys.GrainIdentity(ctx, "c16requester", func(context.Context) (Grain, error) { return gr, nil }, WithLongLivedGrain(), WithGrainReentrancy(rcfg))
 		if err != nil {
@@ -625,15 +703,6 @@ func c16RunCase(t *testing.T, k c16Knobs, seed int64) c16Obs {
 		})
 	}
 
-	effectiveBlocking := func(sp *c16Spec) bool {
-		switch sp.Mode {
-		case "stash":
-			return true
-		case "allowall":
-			return false
-		}
-		return k.Mode == "stash"
-	}
 	newSpec := func() *c16Spec {
 		sp := &c16Spec{Rid: int64(len(led.recs)), Target: rng.Intn(8), CancelAfter: -1}
 		if k.Requester == "actor" {
@@ -654,6 +723,10 @@ func c16RunCase(t *testing.T, k c16Knobs, seed int64) c16Obs {
 		case 1:
 			sp.Mode = "stash"
 		}
+		if (k.Mode == "off" || k.Disturb == "toggle") && rng.Intn(4) != 0 {
+			// the default policy is (or may currently be) Off: mostly per-call overrides
+			sp.Mode = []string{"allowall", "stash"}[rng.Intn(2)]
+		}
 		switch r := rng.Intn(10); {
 		case r == 0:
 			sp.CancelAfter = 0
@@ -662,7 +735,6 @@ func c16RunCase(t *testing.T, k c16Knobs, seed int64) c16Obs {
 		}
 		rec := &c16Rec{spec: sp}
 		sp.rec = rec
-		rec.blocking.Store(effectiveBlocking(sp))
 		led.recs = append(led.recs, rec)
 		return sp
 	}
@@ -715,8 +787,11 @@ func c16RunCase(t *testing.T, k c16Knobs, seed int64) c16Obs {
 	restarted := false
 
 	for round := 0; round < k.Rounds && len(led.recs) < maxRecs-64; round++ {
-		blockingPossible := k.Mode == "stash"
-		if blockingPossible && rng.Intn(3) == 0 && !disturbRounds[round] {
+		episodeOdds := 5
+		if k.Mode != "allowall" || k.Disturb == "toggle" {
+			episodeOdds = 3
+		}
+		if rng.Intn(episodeOdds) == 0 && !disturbRounds[round] {
 			// hold episode: a blocking request to a gated responder; every message sent
 			// before the release is enqueued before the reply, hence held
 			// first let everything outstanding finish (cancelling what has no timeout), so
@@ -726,14 +801,21 @@ func c16RunCase(t *testing.T, k c16Knobs, seed int64) c16Obs {
 				continue
 			}
 			sp := newSpec()
-			sp.API, sp.Behave, sp.Timeout, sp.Mode, sp.CancelAfter, sp.Delay = "Request", "gate", 0, "", -1, 0
+			sp.API, sp.Behave, sp.Timeout, sp.Mode, sp.CancelAfter, sp.Delay = "Request", "gate", 0, "stash", -1, 0
+			if k.Mode == "stash" && k.Disturb != "toggle" && rng.Intn(2) == 0 {
+				sp.Mode = "" // blocking by the default policy
+			}
 			if k.Requester == "grain" {
 				sp.API = "RequestActor"
 			}
 			sp.Gate = make(chan struct{})
 			rec := sp.rec
-			rec.blocking.Store(true)
 			cmd := &c16Issue{Specs: []*c16Spec{sp}, done: make(chan struct{})}
+			if k.Disturb == "toggle" {
+				// retune the default policy in the same handler, i.e. while the gated
+				// blocking request is outstanding: it must stay blocking
+				cmd.Toggle = []string{"disable", "disable", "enable-allowall", "enable-stash", ""}[rng.Intn(5)]
+			}
 			ep := &episode{group: len(episodes) + 1, rec: rec}
 			episodes = append(episodes, ep)
 			if tell(cmd) != nil {
@@ -785,6 +867,9 @@ func c16RunCase(t *testing.T, k c16Knobs, seed int64) c16Obs {
 					sp.Behave, sp.Delay = "prompt", 0
 				}
 				cmd.Specs = append(cmd.Specs, sp)
+			}
+			if k.Disturb == "toggle" && rng.Intn(3) == 0 {
+				cmd.Toggle = []string{"disable", "enable-allowall", "enable-stash"}[rng.Intn(3)]
 			}
 			for n := rng.Intn(3); n > 0; n-- {
 				sendOrd(0, false)
@@ -1037,6 +1122,7 @@ func c16Calibrate(t *testing.T) {
 		}
 		ra := &c16Requester{targets: []*PID{resp}, names: []string{"resp0"}}
 		ra.core.led = led
+		ra.core.mode.Store("stash")
 		pid, err := sys.Spawn(ctx, "requester", ra, WithLongLived(), WithReentrancy(reentrancy.New(reentrancy.WithMode(reentrancy.StashNonReentrant), reentrancy.WithMaxInFlight(4))))
 		if err != nil {
 			t.Fatalf("spawn: %v", err)
@@ -1060,7 +1146,6 @@ func c16Calibrate(t *testing.T) {
 				}
 				rec := &c16Rec{spec: sp}
 				sp.rec = rec
-				rec.blocking.Store(sp.Mode == "")
 				recs = append(recs, rec)
 				cmd.Specs = append(cmd.Specs, sp)
 			}
